@@ -93,6 +93,7 @@ export const INNER_SIBLINGS = [
   '', 'const sq = (n) => n * 2;', 'const sq2 = (n) => (m) => n * m;', 'function innerFn() { return 1; }', '{ let q = 1; q++; }',
   'if (typeof t0 !== "undefined") { Math.max(1, 2); }', 'for (let i = 0; i < 1; i++) { Math.min(i, 1); }', 'try { Math.abs(1); } catch (e) { Math.abs(2); }',
   'const otherJsx = () => <B9>{g9()}</B9>;', 'const ob = { m() { return 1; }, a: () => 2 };', 'class In { f = 1; m() { return 2; } }',
+  '"marker";', '"use strict";', 'for (const q of [1]) Math.max(q, 1);', 'while (false) Math.abs(1);', 'do Math.abs(1); while (false);', 'for (const k in { a: 1 }) Math.abs(1);', 'for (let i = 0; i < 1; i++) Math.abs(i);', 'if (typeof t0 === "symbol") Math.abs(1); else Math.abs(2);', 'lbl2: for (const q of [1]) continue lbl2;',
   'switch (1) { case 1: { break; } default: { break; } }', 'lbl: { break lbl; }', 'const nested = function () { return () => 3; };', 'let cnt = 0; cnt = cnt + 1;',
 ];
 
@@ -109,6 +110,9 @@ export const SIBLINGS = {
   arrowWithJsxTemp: 'const sib5 = () => <B9>{g9()}</B9>;',
   fragmentUse: 'const fr = <>x</>;',
   ifStmt: 'if (typeof sib1 === "undefined") { var z = 1; }',
+  bracelessLoop: 'for (const q of [1]) Math.max(q, 1);',
+  bracelessWhile: 'var wn = 0; while (wn++ < 1) Math.abs(wn);',
+  stringStmt: '"marker";',
   lateImport: 'import lateC from "probe:C0";',
   lateVueImport: 'import { ref as lateRef, h as lateH } from "vue";',
   lateExportFrom: 'export { default as reexported } from "probe:C0";',
